@@ -212,7 +212,12 @@ func cmdCheck(args []string) {
 	replayDir := filepath.Join(*verif, "replays", *prop)
 	engineErr := false
 	for _, o := range failed {
-		if o.result == "error" {
+		if o.result == "error" && o.solver != "disagreement" && (strings.Contains(o.model, "sort") || strings.Contains(o.model, "unknown constant") || strings.Contains(o.model, "not declared") || strings.Contains(o.model, "Parse Error")) {
+			// every solver rejects the query as ill-sorted: a clause of the contract no longer fits the types of the
+			// code it is bound to (on the unchanged tree no query is ill-sorted).  Like an unmapped clause, that is a
+			// failed obligation, not an engine failure.
+			o.clause = "the contract clause no longer fits the code it is bound to (ill-sorted after the change): " + o.clause
+		} else if o.result == "error" {
 			engineErr = true
 			fmt.Printf("ENGINE-ERROR property=%s obligation=%s %s\n", *prop, o.name, firstLines(o.model, 2))
 			continue
